@@ -165,7 +165,7 @@ fn c04(ctx: &Ctx) -> i32 {
     report.assume("BB: a one-shot zinoma whose scripts are all ':' is deadlocked when it has no live child, every thread sleeps and its CPU time does not advance over 3 consecutive 0.5 s samples; still busy at the budget = inconclusive");
     let n = sim_replays(ctx, &mut report, oracle_c04) + bb_replays(ctx, &mut report);
     let params = SimParams {
-        max_n: ctx.tier.pick(8, 14),
+        max_n: ctx.tier.pick(10, 14),
         watch: 0,
         failures: 0,
         early_term: 0,
@@ -175,7 +175,7 @@ fn c04(ctx: &Ctx) -> i32 {
     };
     let rule = "generated acyclic graph x requested subset x schedule (one-shot, every script succeeds); deadlock oracle at final quiescence; non-trivial = some Requested message reached a build/service target after it had already finished (late requester); distinct = graph-shape classes x number of late requests x closure size";
     if ctx.replay.is_none() {
-        let (mut part, failures) = run_sim(ctx, params, ctx.tier.pick(40_000, 1_000_000), oracle_c04, rule, 4);
+        let (mut part, failures) = run_sim(ctx, params, ctx.tier.pick(150_000, 2_000_000), oracle_c04, rule, 4);
         part.extra.insert("regression_replays".into(), serde_json::json!(n));
         report.add(part);
         for f in failures {
@@ -349,7 +349,7 @@ fn bb_replays(ctx: &Ctx, report: &mut Report) -> u64 {
 fn c08(ctx: &Ctx) -> i32 {
     let mut report = Report::new(ctx, "exploration");
     let params = SimParams {
-        max_n: ctx.tier.pick(8, 14),
+        max_n: ctx.tier.pick(10, 14),
         watch: 0,
         failures: 1,
         early_term: 1,
@@ -358,9 +358,9 @@ fn c08(ctx: &Ctx) -> i32 {
         sched_len: ctx.tier.pick(120, 300),
     };
     let rule = "generated graph with shared dependencies x requested multiset (duplicates, dependency together with dependent) x schedule (one-shot; some scripts fail, some runs interrupted); exactly-once multiset over the closure on natural success, at-most-once always; non-trivial = some target has >= 2 requesters; distinct = shape classes x (kind, #requests before completion, #after) per shared target";
-    sim_check(ctx, &mut report, params, ctx.tier.pick(40_000, 1_000_000), oracle_c08, rule, 8);
+    sim_check(ctx, &mut report, params, ctx.tier.pick(150_000, 2_000_000), oracle_c08, rule, 8);
     bb_replays(ctx, &mut report);
-    bb_part(ctx, &mut report, "c08", BbParams { max_n: 8, failures: true, services: true, rendezvous: false }, ctx.tier.pick(32, 400),
+    bb_part(ctx, &mut report, "c08", BbParams { max_n: 8, failures: true, services: true, rendezvous: false }, ctx.tier.pick(96, 600),
         "real binary, generated graphs, duplicate / both-spelling requests: no target started twice, nothing outside the closure started, exit 0 => exactly one start+finish per closure build; non-trivial = a target with >= 2 requesters", 108);
     report.finish()
 }
@@ -391,7 +391,7 @@ fn c01(ctx: &Ctx) -> i32 {
     report.assume("a target's execution starts when its build cycle begins (incremental check), which is when the start condition is evaluated; readiness of dependencies is also checked at the script spawn");
     report.assume("'latest word' only counts messages actually delivered to the target (forwarded by the harness)");
     let params = SimParams {
-        max_n: ctx.tier.pick(8, 14),
+        max_n: ctx.tier.pick(10, 14),
         watch: 1,
         failures: 1,
         early_term: 1,
@@ -400,9 +400,9 @@ fn c01(ctx: &Ctx) -> i32 {
         sched_len: ctx.tier.pick(200, 400),
     };
     let rule = "generated graph x requested subset x watch on/off x failures x schedule with file-change notices; at every start: every dependency (aggregates expanded) finished / started before, and latest delivered word of every direct dependency per kind is Ok; aggregates only say Ok while all their dependencies' latest word is Ok; non-trivial = >= 2 dependencies, or dependency through a non-empty aggregate, or (watch) restarted / a dependency notice between two starts; distinct = shape classes x feature set x number of starts";
-    sim_check(ctx, &mut report, params, ctx.tier.pick(60_000, 1_500_000), oracle_c01, rule, 1);
+    sim_check(ctx, &mut report, params, ctx.tier.pick(200_000, 3_000_000), oracle_c01, rule, 1);
     bb_replays(ctx, &mut report);
-    bb_part(ctx, &mut report, "c01", BbParams { max_n: 8, failures: false, services: true, rendezvous: false }, ctx.tier.pick(32, 400),
+    bb_part(ctx, &mut report, "c01", BbParams { max_n: 8, failures: false, services: true, rendezvous: false }, ctx.tier.pick(96, 600),
         "real binary on generated graphs with scripts sleeping 0-40 ms; in the trace every start of T is preceded by the finish line of each build dependency (aggregates expanded) and each service dependency was forked no later than T (kernel start ticks); non-trivial = >= 2 dependencies or a dependency through an aggregate", 101);
     report.finish()
 }
@@ -420,7 +420,7 @@ fn c06(ctx: &Ctx) -> i32 {
         sched_len: ctx.tier.pick(250, 500),
     };
     let rule = "watch mode: generated graph x schedule x up to 6 file-change notices (idle, mid-run, in a dependency while the dependent runs, bursts) plus watcher notices caused by producers' outputs; at final quiescence every target not blocked by a failure is up to date w.r.t. the version model, its last execution began after its dependencies' last runs ended and after its last notice; no run invalidated in flight is acknowledged; non-trivial = a notice landed while the target or a dependency/dependent had a run in flight; distinct = shape classes x placement classes x #notices";
-    sim_check(ctx, &mut report, params, ctx.tier.pick(60_000, 1_500_000), oracle_c06, rule, 6);
+    sim_check(ctx, &mut report, params, ctx.tier.pick(150_000, 3_000_000), oracle_c06, rule, 6);
     // black-box part: real binary, real inotify
     report.assume("BB: placements by rendezvous files (scripts hold on request, before or after reading their inputs); one 300 ms grace after an in-flight change (inotify latency is far below); idle = no child, threads asleep, CPU and trace unchanged over 3 samples of 150 ms");
     let open = report.open_signatures();
@@ -450,7 +450,7 @@ fn c06(ctx: &Ctx) -> i32 {
             ctx,
             engine: "BB",
             rule: "real binary with --watch and real inotify on generated graphs (n <= 4) of copy-style scripts (out_T = in_T | out of its dependencies), started on a clean or a built tree; 0-4 steps: idle change, burst, change landing while a run of the affected target or of a dependent is held (before or after the held script read its inputs); at quiescence every out_T must equal f(final inputs); start-up must not exit; non-trivial = a change landed while a run was in flight, or the tree was clean at start-up; distinct = placement classes x graph size x edges",
-            total_cases: ctx.tier.pick(16, 200),
+            total_cases: ctx.tier.pick(24, 240),
             threads: 6.min(ctx.threads),
             max_shrink_iters: 16,
             stream: 106,
@@ -468,7 +468,7 @@ fn c06(ctx: &Ctx) -> i32 {
 fn c07(ctx: &Ctx) -> i32 {
     let mut report = Report::new(ctx, "exploration");
     let params = SimParams {
-        max_n: ctx.tier.pick(8, 14),
+        max_n: ctx.tier.pick(10, 14),
         watch: 1,
         failures: 2,
         early_term: 1,
@@ -477,9 +477,9 @@ fn c07(ctx: &Ctx) -> i32 {
         sched_len: ctx.tier.pick(200, 400),
     };
     let rule = "generated graph x failing subset (non-zero exit, cannot launch, fails once) x watch on/off x schedule; one-shot: run returns Err naming an actually failed target; nothing depending on a failing target ever starts; watch: run keeps going, notice after failure re-runs it; non-trivial = the failing target has a dependent and a sibling was running when it failed";
-    sim_check(ctx, &mut report, params, ctx.tier.pick(60_000, 1_500_000), oracle_c07, rule, 7);
+    sim_check(ctx, &mut report, params, ctx.tier.pick(200_000, 3_000_000), oracle_c07, rule, 7);
     bb_replays(ctx, &mut report);
-    bb_part(ctx, &mut report, "c07", BbParams { max_n: 8, failures: true, services: true, rendezvous: false }, ctx.tier.pick(32, 400),
+    bb_part(ctx, &mut report, "c07", BbParams { max_n: 8, failures: true, services: true, rendezvous: false }, ctx.tier.pick(96, 600),
         "real binary, generated graphs with failing scripts (exit 1,2,3,126,127,130,255): exit status non-zero, stderr names a target that failed, no target above a failing one is started; non-trivial = a failing target started and has a dependent", 107);
     report.finish()
 }
@@ -487,7 +487,7 @@ fn c07(ctx: &Ctx) -> i32 {
 fn c11(ctx: &Ctx) -> i32 {
     let mut report = Report::new(ctx, "exploration");
     let params = SimParams {
-        max_n: ctx.tier.pick(8, 14),
+        max_n: ctx.tier.pick(10, 14),
         watch: 1,
         failures: 0,
         early_term: 0,
@@ -496,9 +496,9 @@ fn c11(ctx: &Ctx) -> i32 {
         sched_len: ctx.tier.pick(200, 400),
     };
     let rule = "generated graph mixing services/builds/aggregates x requested subset x schedule (one-shot) and x notices restarting services (watch); keep-alive iff a service stands behind a requested root; service started before and alive during dependent builds; never two live instances; stopped at shutdown; non-trivial = service behind an aggregate / requested and depended on / needed by a build / restarted; distinct = shape classes x feature set x #services";
-    sim_check(ctx, &mut report, params, ctx.tier.pick(60_000, 1_500_000), oracle_c11, rule, 11);
+    sim_check(ctx, &mut report, params, ctx.tier.pick(200_000, 3_000_000), oracle_c11, rule, 11);
     bb_replays(ctx, &mut report);
-    bb_part(ctx, &mut report, "c11", BbParams { max_n: 8, failures: false, services: true, rendezvous: false }, ctx.tier.pick(32, 400),
+    bb_part(ctx, &mut report, "c11", BbParams { max_n: 8, failures: false, services: true, rendezvous: false }, ctx.tier.pick(96, 600),
         "real binary: services are exec-sleep shells, builds check kill -0 of the services they depend on at start and end; zinoma alive-and-idle after all builds iff a service stands behind a requested root; SIGTERM then exits < 5 s with no marked process left; non-trivial = service behind aggregate / requested and depended on / needed by a build", 111);
     report.finish()
 }
@@ -506,7 +506,7 @@ fn c11(ctx: &Ctx) -> i32 {
 fn c17(ctx: &Ctx) -> i32 {
     let mut report = Report::new(ctx, "exploration");
     let params = SimParams {
-        max_n: ctx.tier.pick(8, 14),
+        max_n: ctx.tier.pick(10, 14),
         watch: 0,
         failures: 0,
         early_term: 0,
@@ -515,9 +515,9 @@ fn c17(ctx: &Ctx) -> i32 {
         sched_len: ctx.tier.pick(200, 400),
     };
     let rule = "one-shot; scripts finish only when nothing else is enabled (antichains stay running); at every message-quiescent point a requested target with all dependencies ready has begun; a later start of such a target is a wait on a non-dependency; non-trivial = >= 2 scripts running concurrently with at least one of them having dependencies; distinct = shape classes x antichain size";
-    sim_check(ctx, &mut report, params, ctx.tier.pick(40_000, 1_000_000), oracle_c17, rule, 17);
+    sim_check(ctx, &mut report, params, ctx.tier.pick(150_000, 2_000_000), oracle_c17, rule, 17);
     bb_replays(ctx, &mut report);
-    bb_part(ctx, &mut report, "c17", BbParams { max_n: 10, failures: false, services: true, rendezvous: true }, ctx.tier.pick(24, 300),
+    bb_part(ctx, &mut report, "c17", BbParams { max_n: 10, failures: false, services: true, rendezvous: true }, ctx.tier.pick(48, 400),
         "real binary: a maximal antichain (2..8) of mutually independent build targets whose scripts wait for each other's marker files (20 s deadline): completes iff they all overlap; non-trivial = antichain >= 2 with a member that has dependencies", 117);
     report.finish()
 }
@@ -562,7 +562,7 @@ fn c20(ctx: &Ctx) -> i32 {
             ctx,
             engine: "SIM",
             rule: "metamorphic pairs on controlled schedules: graph containing an aggregate G (nested, empty, over builds / services / both, optionally with a failing member) x other requested targets X x schedule; run A requests {G} u X, run B requests deps(G) u X; same completed / skipped / service sets, same verdict, same keep-alive; non-trivial = G nested or empty or with a service behind it; distinct = G-shape classes x graph classes",
-            total_cases: ctx.tier.pick(20_000, 400_000),
+            total_cases: ctx.tier.pick(60_000, 1_000_000),
             threads: ctx.threads,
             max_shrink_iters: 3000,
             stream: 20,
@@ -628,7 +628,7 @@ fn c10(ctx: &Ctx) -> i32 {
             ctx,
             engine: "BB",
             rule: "generated graph (n<=8, or fan-in / many-roots of 100..700 targets) x long-running / quick / failing scripts and services x mode {one-shot, watch} x exit cause {SIGINT, SIGTERM, failing target, normal completion} x instant (after k scripts/services are up, by rendezvous on marker files; or after a generated delay; double signal); exit latency <= 5 s and no process carrying the run's marker alive 200 ms after exit; non-trivial = >= 1 spawned process alive at the instant of the event, or a large graph in flight; distinct = cause x mode x k x #alive x double x large",
-            total_cases: ctx.tier.pick(48, 1500),
+            total_cases: ctx.tier.pick(96, 1500),
             threads: 8.min(ctx.threads),
             max_shrink_iters: 8,
             stream: 110,
@@ -652,7 +652,7 @@ fn c12(ctx: &Ctx) -> i32 {
             ctx,
             engine: "BB",
             rule: "1-3 projects x 1-5 build targets with generated output declarations (plain / extension-filtered paths: directory, file, missing, nested, overlapping the input) x planted trees (matching, non-matching, nested, .zinoma inside outputs, symlinks to precious files/dirs outside, dangling links, other targets' state) x {--clean, --clean T... (optionally after a real build)}; two-sided recursive snapshot diff against the harness-computed expected-deleted set; non-trivial = a survivor class adjacent to a deleted entry; distinct = invocation class x survivor-class set",
-            total_cases: ctx.tier.pick(800, 20_000),
+            total_cases: ctx.tier.pick(2400, 30_000),
             threads: ctx.threads,
             max_shrink_iters: 200,
             stream: 112,
@@ -748,7 +748,7 @@ fn c09(ctx: &Ctx) -> i32 {
             ctx,
             engine: "INC",
             rule: "1-4 project files with overlapping target names, dependencies / X.output references (bare, qualified, to unknown targets or projects, closing cycles, .output of services/aggregates) x requested subset; real loader + resolver vs reference closure; valid => same key set, project directory and dependency lists; invalid (reachable defect) => Err; unreachable defects must not matter; non-trivial = cross-project / shared revisit / cycle / unknown project / output of non-build / defect present but unreachable; distinct = class set x #projects",
-            total_cases: ctx.tier.pick(5000, 200_000),
+            total_cases: ctx.tier.pick(30_000, 400_000),
             threads: ctx.threads,
             max_shrink_iters: 2000,
             stream: 109,
@@ -772,7 +772,7 @@ fn c19(ctx: &Ctx) -> i32 {
             ctx,
             engine: "INC",
             rule: "1-4 projects whose targets draw names from a 5-name alphabet (so equal names occur in several projects), named/unnamed root x requested spellings (bare, qualified, both) x bare/qualified references; accepted-name set equality, both spellings => one id, bare reference => target of the same project (checked through the resolved project directory); non-trivial = a target name shared by >= 2 projects is requested or referenced bare; distinct = class set x #shared names",
-            total_cases: ctx.tier.pick(5000, 200_000),
+            total_cases: ctx.tier.pick(30_000, 400_000),
             threads: ctx.threads,
             max_shrink_iters: 2000,
             stream: 119,
@@ -798,7 +798,7 @@ fn c14(ctx: &Ctx) -> i32 {
             ctx,
             engine: "INC",
             rule: "project sets from a grammar of the documented schema with 0-3 defects of known verdict (unknown key at project/target/resource level, two kinds, no kind, bad project/target name incl. Unicode word characters, wrong import key, unnamed import, import cycle, self-import, duplicate project name); loader verdict vs independent validator; on accept the meaning of every accepted name (project directory, kind, dependencies, script) is identical over 8 loads; non-trivial = >= 1 defect or >= 2 projects; distinct = defect-class set",
-            total_cases: ctx.tier.pick(4000, 100_000),
+            total_cases: ctx.tier.pick(15_000, 200_000),
             threads: ctx.threads,
             max_shrink_iters: 2000,
             stream: 114,
@@ -840,7 +840,7 @@ fn c15(ctx: &Ctx) -> i32 {
             ctx,
             engine: "INC",
             rule: "generated trees (depth <= 4; names: plain, dot-files, multi-dot, name == extension, suffix without dot, non-UTF-8, newline, ~ / .swp; .zinoma at any depth; symlinks to files/dirs inside, outside, dangling) x 1-2 files resources (1-4 listed paths incl. '.', single files, missing; 14 extension declarations) through the real loader (normalisation) and list_files_in_paths / list_files_in_resources; MUST subset-of result subset-of MAY vs the reference walker; watcher predicate on every path; non-trivial = depth >= 2 and one of {.zinoma inside, multi-dot, non-UTF-8, name==extension, link to dir, missing path}; distinct = feature set x extension declarations",
-            total_cases: ctx.tier.pick(3000, 100_000),
+            total_cases: ctx.tier.pick(20_000, 300_000),
             threads: ctx.threads,
             max_shrink_iters: 3000,
             stream: 115,
@@ -895,7 +895,7 @@ fn c02(ctx: &Ctx) -> i32 {
     let mut report = Report::new(ctx, "exploration");
     report.assume("reference snapshot model: independent walker (std read_dir, own .zinoma pruning and suffix rule) + stdout of each declared command in its declaring directory; files only (no symlinks) in these trees; distinct modification times forced with utimensat");
     inc_replays(ctx, &mut report);
-    inc_part(ctx, &mut report, "c02", false, ctx.tier.pick(1500, 30_000),
+    inc_part(ctx, &mut report, "c02", false, ctx.tier.pick(6000, 60_000),
         "declared resources (src dir with 14 extension declarations, optional second files resource with a single file, optional cmd_stdout, optional outputs, optional resources inherited through X.output from a producer in the same / an imported project, identical command text and relative paths in both projects) x generated tree x 1-6 edits (20 operation kinds: same-length rewrite, rewrite with restored mtime, append, truncate, touch, delete, rename within / out, create matching / non-matching, command source edits, look-alike edits, edits under .zinoma, byte flips beyond 1 KiB / 64 KiB, output edits, producer output edits) between two calls of the real incremental::run; Skipped => model says set equal, each file mtime-or-content equal, each command same text; non-trivial = the model snapshot changed; distinct = layout x operation set x #resources",
         102);
     report.finish()
@@ -905,7 +905,7 @@ fn c03(ctx: &Ctx) -> i32 {
     let mut report = Report::new(ctx, "exploration");
     report.assume("premise 'state could be computed and stored' checked by the harness: all denoted paths valid UTF-8, every declared command exits 0");
     inc_replays(ctx, &mut report);
-    inc_part(ctx, &mut report, "c03", true, ctx.tier.pick(1000, 20_000),
+    inc_part(ctx, &mut report, "c03", true, ctx.tier.pick(4000, 40_000),
         "same layouts as C02 with histories that leave every declared resource unchanged (touch, files created outside the denoted set, look-alike edits in the other project, edits under .zinoma, no-ops) and 2-4 consecutive invocations of the real incremental::run: unchanged + storable => Skipped and the script future never polled; non-trivial = >= 2 resources / multi-project / colliding command text / >= 3 invocations",
         103);
     report.finish()
@@ -914,7 +914,7 @@ fn c03(ctx: &Ctx) -> i32 {
 fn c13(ctx: &Ctx) -> i32 {
     let mut report = Report::new(ctx, "exploration");
     inc_replays(ctx, &mut report);
-    inc_part(ctx, &mut report, "c13", false, ctx.tier.pick(800, 15_000),
+    inc_part(ctx, &mut report, "c13", false, ctx.tier.pick(3000, 30_000),
         "producer/consumer arrangements (same project, imported project, chain of two producers in the imported project; identical relative paths and command texts in both projects) x edits of producer outputs, of look-alikes in the consumer's project and of command sources; structural: resolved consumer depends on X and its input is own resources followed by X's outputs bound to X's directory; behavioural: producer-output change => consumer runs, unchanged => skipped; non-trivial = cross-project with a colliding path or command text",
         113);
     report.finish()
@@ -938,7 +938,7 @@ fn c05(ctx: &Ctx) -> i32 {
             ctx,
             engine: "BB",
             rule,
-            total_cases: ctx.tier.pick(240, 3000),
+            total_cases: ctx.tier.pick(480, 4000),
             threads: 8.min(ctx.threads),
             max_shrink_iters: 60,
             stream: 105,
@@ -1031,7 +1031,7 @@ fn c16(ctx: &Ctx) -> i32 {
             ctx,
             engine: "INC",
             rule: "real TargetWatcher (inotify) over a scratch tree: 1-2 extension groups (incl. filters that match temporary-file names: rs~, swp, swx) x 1-12 operations beneath the watched directories (create, write, append, rename within / out / in, delete, mkdir + file inside, write under .zinoma) on names from 12 classes (relevant, other extension, *~, .*.swp, .*.swx, non-UTF-8, 200 characters, newline, name == extension); relevant => >= 1 invalidation before the next barrier, irrelevant => none; watcher thread panics recorded; survival probe at the end; non-trivial = an irrelevant operation followed by a relevant one, or an odd name; distinct = operation/name class set x filters",
-            total_cases: ctx.tier.pick(2000, 40_000),
+            total_cases: ctx.tier.pick(4000, 60_000),
             threads: 8.min(ctx.threads),
             max_shrink_iters: 300,
             stream: 116,
@@ -1055,7 +1055,7 @@ fn c18(ctx: &Ctx) -> i32 {
             ctx,
             engine: "BB",
             rule: "histories of 3-9 steps over one tree (root project named or not, imported project sub): invocations from either entry project (-p), spelling bare / qualified / through an aggregate / as a dependency or X.output producer of another target / both spellings at once, optionally --clean U for another target, interleaved with content edits, touches and new files in input directories and with a target that fails on demand; prediction skipped <=> recorded snapshot == current snapshot, compared with script traces; non-trivial = a target reached by >= 2 routes with a failure or clean in the history; distinct = route set x root naming",
-            total_cases: ctx.tier.pick(120, 3000),
+            total_cases: ctx.tier.pick(400, 4000),
             threads: 8.min(ctx.threads),
             max_shrink_iters: 120,
             stream: 118,
